@@ -61,7 +61,7 @@ CHECKS["C08"] = ("libspace", "model_checking",
    "the new name is accepted as library-relative or relative to the issuing note's directory; only what links resolve to is compared for rewritten notes, not their formatting",
    "explicit-state enumeration of configurations x operations against the implementation with a reference-model oracle", "§5 C08")
 CHECKS["C09"] = ("actions", "model_checking",
-   "bounded exhaustive exploration: every block forest up to the bound (sections, code, tables, block references to existing / missing / the same / another-directory notes, lists, quotes) as a root note and as a note in a sub-directory x every line x every offered extract / inline action is resolved by the real Server; the edit is applied by an independent applier and the library before/after is compared through the independent content extractor and link resolver (fresh keys, top-level headings, exactly +1 / -1 reference, nothing else lost or duplicated, links resolve to the same notes from their new place, extract-then-inline restores the formatted original)",
+   "bounded exhaustive exploration: every block forest up to the bound (sections, code, tables, block references to existing / missing / the same / another-directory notes, lists, quotes) as a root note and as a note in a sub-directory (and references from both to notes with a link in every kind of place: heading, item, quote, table header and body cell) x every line x every offered extract / inline action is resolved by the real Server; the edit is applied by an independent applier and the library before/after is compared through the independent content extractor and link resolver (fresh keys, top-level headings, exactly +1 / -1 reference, nothing else lost or duplicated, links resolve to the same notes from their new place, extract-then-inline restores the formatted original)",
    "content leaves via R1 (levels / markers / position are presentation); production key generation (random keys)",
    "explicit-state enumeration of inputs x cursor lines x operations against the implementation with a reference-model oracle", "§5 C09")
 CHECKS["C10"] = ("actions", "model_checking",
